@@ -87,6 +87,27 @@ def fam_C10(tier, seed):
         else:
             b.con(outer, xs=[o_con(i), at[n3]()])
         ps.append(b.done())
+    # ONE constraint used as an operand twice (And / Implies / IfThenElse list first, then again elsewhere): each use
+    # sees the operand's own meaning
+    for first, again, (n1, n2) in itertools.product(("And", "Implies", "IfThenElse"), ("Not", "Implies", "Or"),
+                                                    [("startAt", "endBefore"), ("prec", "sync"), ("endBefore", "dontoverlap")]):
+        b = PB(H, tag="shared-operand")
+        a, c = _mk(b)
+        at = _atoms(b, a, c)
+        o1, o2 = at[n1](), at[n2]()
+        if first == "And":
+            b.con("Or", xs=[o_con(b.con("And", xs=[o1, o2])), at["expr2"]()])
+        elif first == "Implies":
+            b.con("Implies", cond=cond["c1"](a, c), xs=[o1, o2])
+        else:
+            b.con("IfThenElse", cond=cond["c2"](a, c), xs=[o1, o2], ys=[at["expr"]()])
+        if again == "Not":
+            b.con("Not", x=o1)
+        elif again == "Implies":
+            b.con("Implies", cond=cond["c2"](a, c), xs=[o1])
+        else:
+            b.con("Or", xs=[o1, at["expr2"]()])
+        ps.append(b.done())
     # a condition given as a plain Python bool (documented type: Union[z3.BoolRef, bool])
     for cv, n1, n2 in itertools.product(("pytrue", "pyfalse"), ("startAt", "prec", "expr2"), ("endBefore", "sync")):
         b = PB(H, tag="Implies-bool")
